@@ -78,8 +78,11 @@ Queries == {"T.sql", "a.sql", "E.sql", "i.sql", "I.sql", "R.sql", "R.dbml", "R.t
 AME == "AttributeMissingError"
 \* the outcome class the library must produce for query q in state st, or "unspecified" where the
 \* property is silent (several defects interacting, or a query the defect does not concern)
-Out(st, q) ==
-  LET d == Defects(st) IN
+\* fl = the flavour of the universe (below).  The only flavour with a bearing on consistency: a many-to-many reference is
+\* never inline (the flag is kept but has no effect), so "composite inline" is no defect of such a universe.
+DefectsF(st, fl) == Defects(st) \ (IF fl.rtype = "<>" THEN {"composite inline"} ELSE {})
+Out(st, q, fl) ==
+  LET d == DefectsF(st, fl) IN
   IF d = {} THEN "ok"
   ELSE IF Cardinality(d) > 1 THEN "unspecified"
   ELSE LET x == CHOOSE y \in d : TRUE IN
@@ -96,10 +99,10 @@ Out(st, q) ==
     [] x = "composite inline"     -> IF q = "R.dbml" THEN "DBMLError" ELSE "unspecified"
     [] x = "table detached"       -> IF q \in {"T.get_refs", "a.get_refs"} THEN "UnknownDatabaseError" ELSE "unspecified"
 
-\* Flavours: optional settings of the elements that have NO bearing on consistency.  Out takes no flavour: whatever the
+\* Flavours: optional settings of the elements that have no bearing on consistency (with the one exception above): whatever the
 \* index is (primary key, unique), whether column a is a primary key, whichever way the reference points, the same
 \* defect must be refused with the same error.  Every history is executed in several flavours of the universe.
-Flavours == [ipk : BOOLEAN, iunique : BOOLEAN, apk : BOOLEAN, rtype : {">", "<", "-"}, r2inline : BOOLEAN, aenum : BOOLEAN, tabstract : BOOLEAN]      \* (aenum: column a is typed with enum E)
+Flavours == [ipk : BOOLEAN, iunique : BOOLEAN, apk : BOOLEAN, rtype : {">", "<", "-", "<>"}, r2inline : BOOLEAN, aenum : BOOLEAN, tabstract : BOOLEAN]      \* (aenum: column a is typed with enum E)
 Plain == [ipk |-> FALSE, iunique |-> FALSE, apk |-> FALSE, rtype |-> ">", r2inline |-> FALSE, aenum |-> FALSE, tabstract |-> FALSE]
 
 \* every way of being inconsistent in exactly one way (vacuity guard: the harness requires that each was reached and judged)
